@@ -649,6 +649,13 @@ class StTr:
 
     def call(self, node):
         f = node.func
+        # params = super().get_params(deep=deep): sklearn's BaseEstimator reads getattr(self, key) for every constructor parameter
+        if ast.unparse(f) == "super().get_params":
+            d = self.cfg.get("dicts", {}).get(self.cfg.get("super_get_params"))
+            if d is None or node.args or [(kw.arg, ast.unparse(kw.value)) for kw in node.keywords] != [("deep", "deep")]:
+                raise Shape("super().get_params(...) outside the table")
+            vs = [self.cast(self.attr_read(key), ty) for key, ty in zip(d["keys"], d["types"])]
+            return V(tuple_text(vs), tuple_ty(d["types"]))
         # self._m(...)
         if isinstance(f, ast.Attribute) and isinstance(f.value, ast.Name) and f.value.id == "self":
             return self.method_call(f.attr, node)
@@ -1856,9 +1863,75 @@ TARGETS = [
                     "order (a still-infinite extreme reaching `int()` raises)")]),
 ]
 
+# ---- persim/landscapes/transformer.py : PersistenceLandscaper  ->  Model/Transformers.lean (C18)
+LS_STATE_TY = Named("LState α", "R")
+OA = Opt(A)
+LS = dict(
+    file="landscaper", variables="[LT α] [DecidableLT α]", err="LErr",
+    state=dict(ty=LS_STATE_TY,
+               attrs={"_start": ("field", "start", OA), "_stop": ("field", "stop", OA),
+                      "_start_fixed": ("field", "startFixed", B), "_stop_fixed": ("field", "stopFixed", B),
+                      "hom_deg": ("field", "homDeg", Z), "num_steps": ("field", "numSteps", Z), "flatten": ("field", "flatten", B)}),
+    setters={"start": dict(lean="start_setter", extra=[], raises=False, arg=OA),
+             "stop": dict(lean="stop_setter", extra=[], raises=False, arg=OA)},
+    calls={"min": ("by", "PersimVerif.SrcLib.pyMinBy", "LErr.valueError"), "max": ("by", "PersimVerif.SrcLib.pyMaxBy", "LErr.valueError"),
+           "np.isfinite": ("isfinite", "fin"), "np.all": ("all",)},
+    dicts={"params": dict(keys=["start", "stop"], types=[OA, OA])}, super_get_params="params",
+    index_err="LErr.indexError", py_index="pyIndex",
+)
+FIN = ("fin", "α → Bool")
+
+TARGETS += [
+    T(LS, func="PersistenceLandscaper.start.setter", lean="start_setter", pyparams=["self", "value"],
+      params=[("self", LS_STATE_TY), ("value", OA)], ret="state", result="LState α",
+      obligations=[("src_start_setter_eq_model", "", "start_setter (α := α) = setStart", "rfl",
+                    "`self._start = value; self._start_fixed = value is not None`")]),
+    T(LS, func="PersistenceLandscaper.stop.setter", lean="stop_setter", pyparams=["self", "value"],
+      params=[("self", LS_STATE_TY), ("value", OA)], ret="state", result="LState α",
+      obligations=[("src_stop_setter_eq_model", "", "stop_setter (α := α) = setStop", "rfl",
+                    "`self._stop = value; self._stop_fixed = value is not None`")]),
+    T(LS, func="PersistenceLandscaper.__init__", lean="init",
+      pyparams=["self", "hom_deg", "start", "stop", "num_steps", "flatten"],
+      params=[("self", LS_STATE_TY), ("hom_deg", Z), ("start", OA), ("stop", OA), ("num_steps", Z), ("flatten", B)],
+      ret="state", result="LState α", defaults=[("hom_deg", "0"), ("num_steps", "500")], booldefaults=[("flatten", False)],
+      obligations=[("src_init_eq_model", "(s0 : LState α) (hd : Int) (st sp : Option α) (n : Int) (fl : Bool)",
+                    "init s0 hd st sp n fl = lctor hd st sp n fl", "rfl",
+                    "the five assignments of the constructor, `start`/`stop` through the generated property setters; `s0` is the "
+                    "object before them (the result does not depend on it)")]),
+    T(LS, func="PersistenceLandscaper.get_params", lean="get_params", pyparams=["self", "deep"],
+      params=[("self", LS_STATE_TY)], ret=Pair(OA, OA), result="Option α × Option α", booldefaults=[("deep", True)],
+      obligations=[("src_get_params_eq_model", "(s : LState α)", "get_params s = (getStart s, getStop s)",
+                    "by\n  unfold get_params getStart getStop\n  cases s.startFixed <;> cases s.stopFixed <;> rfl",
+                    "the entries `start`, `stop` of the returned dict: sklearn's `get_params` reads the attributes, then the two "
+                    "overrides `if not self._start_fixed: params[\"start\"] = None`, `if not self._stop_fixed: …`")]),
+    T(LS, func="PersistenceLandscaper.fit", lean="fit", pyparams=["self", "X", "y"],
+      fparams=[FIN], params=[("self", LS_STATE_TY), ("X", Lst(LPA))], raises=True, ret="state", result="Except LErr (LState α)",
+      obligations=[("src_fit_eq_model", "(fin : α → Bool) (s : LState α) (X : List (Dgm α))", "fit fin s X = lfit fin s X",
+                    "by\n  unfold fit lfit\n  cases pyIndex X s.homDeg with\n  | none => rfl\n  | some d =>\n"
+                    "    rcases s with ⟨st, sp, sf, pf, n, fl, hd⟩\n"
+                    "    simp only [learn, finitePts, ← PersimVerif.SrcBridge.Landscaper.pyMinBy_fst,\n"
+                    "      ← PersimVerif.SrcBridge.Landscaper.pyMaxBy_snd]\n"
+                    "    cases sf <;> cases pf <;>\n"
+                    "      cases PersimVerif.SrcLib.pyMinBy (fun pt => pt.1) (List.filter (fun p => fin p.1 && fin p.2) d) <;>\n"
+                    "      cases PersimVerif.SrcLib.pyMaxBy (fun pt => pt.2) (List.filter (fun p => fin p.1 && fin p.2) d) <;>\n"
+                    "      rfl",
+                    "`X[self.hom_deg]` (IndexError), the finiteness filter, `min(…, key=itemgetter(0))[0]` / "
+                    "`max(…, key=itemgetter(1))[1]` (ValueError on an empty list, evaluated only where the flag is off) guarded by "
+                    "`_start_fixed` / `_stop_fixed`")]),
+]
+
 FILES = {
     # key: (python source, generated Lean file, Lean namespace, imports, property, opened namespaces)
     "imager": ("persim/images.py", "SrcImager.lean", "PersimVerif.Src.images",
                "PersimVerif.Model.Imager\nimport PersimVerif.Lemmas.SrcBridgeImager", "C12", "PersimVerif.Imager"),
+    "landscaper": ("persim/landscapes/transformer.py", "SrcLandscaper.lean", "PersimVerif.Src.landscapes_transformer",
+                   "PersimVerif.Model.Transformers\nimport PersimVerif.Lemmas.SrcBridgeLandscaper", "C18",
+                   "PersimVerif.Imager PersimVerif.Transformers"),
 }
-BRIDGES = {"imager": ["PersimVerif/Lemmas/SrcLib.lean", "PersimVerif/Lemmas/SrcBridgeImager.lean"]}
+BRIDGES = {"imager": ["PersimVerif/Lemmas/SrcLib.lean", "PersimVerif/Lemmas/SrcBridgeImager.lean"],
+           "landscaper": ["PersimVerif/Lemmas/SrcLib.lean", "PersimVerif/Lemmas/SrcBridgeLandscaper.lean"]}
+
+
+from . import py2lean as _base  # noqa: E402   (registers this module's files when it is imported first)
+if hasattr(_base, "_register"):
+    _base._register()
